@@ -108,6 +108,20 @@ def untyped_node_params(b):
     return [i for i in range(1, b.arg_count + 1) if b.locals[i]['ty']['s'].startswith('&typst_syntax::SyntaxNode')]
 
 
+# kinds a node can have where the printer is in math mode (expressions of math syntax and the argument structure of math calls); used to prune
+# `cast::<T>()` of nodes the evaluator knows nothing about when a converter is evaluated in math mode
+MATH_NODE_KINDS = frozenset(grammar.MATH_EXPR) | {'Args', 'Named', 'Spread', 'Array', 'Equation', 'Space', 'LineComment', 'BlockComment', 'Hash'}
+
+
+def _is_node_predicate(tb):
+    """a free function of the printer that inspects a node and answers with a bool / a number / an Option of such (`table::is_table`,
+    `table::is_formatable_table`): a decision, not an emission - left unknown (both answers explored) instead of being unrolled over unknown children"""
+    if tb.def_kind != 'Fn' or not tb.short.startswith('pretty::table::'):
+        return False
+    ret = tb.locals[0]['ty']['s']
+    return ret == 'bool' or ret.startswith('std::option::Option<usize') or ret.startswith('std::option::Option<std::vec::Vec<usize') or ret == 'usize'
+
+
 class SiteEvaluator:
     def __init__(self, w, max_paths=20000):
         self.w = w
@@ -228,6 +242,8 @@ class SiteEvaluator:
         if key in self._cache:
             return self._cache[key]
         ip = Interp(self.w, max_depth=12, max_paths=self.max_paths, max_steps=max_steps)
+        if ctx_mode == 'Math':
+            ip.unknown_node_kinds = MATH_NODE_KINDS
         flat = []
         for fk in FLATTEN.get(parent_kind, []):
             flat += grammar.CHILDREN.get(fk, [])
@@ -253,7 +269,8 @@ class SiteEvaluator:
             return child_items(kinds, depth)
         ip.loop_items_cb = items
         ip.no_inline = lambda tb: (tb.short.endswith('::print_doc') or tb.short.endswith('collect_markup_repr') or ('context::{impl#' in tb.short and ctx_mode is None)
-                                   or 'get_fold_style' in tb.short or tb.short.startswith('attr::') or tb.short.endswith('has_comment_children')) and tb.id != b.id
+                                   or 'get_fold_style' in tb.short or tb.short.startswith('attr::') or tb.short.endswith('has_comment_children')
+                                   or _is_node_predicate(tb)) and tb.id != b.id
         m = Machine()
         cells = {}
         for i in range(1, b.arg_count + 1):
@@ -261,6 +278,13 @@ class SiteEvaluator:
             if ctx_mode is not None and b.locals[i]['ty']['s'].endswith('context::Context'):
                 cells[i].val = context(ctx_mode, None)
         cells[param].val = param_val if param_val is not None else Node('parent', parent_kind)
+        # further node parameters of the converter (`convert_func_call_args(func_call, args)`): parts of the same subtree, tagged apart
+        for i in range(1, b.arg_count + 1):
+            if i != param and cells[i].val is kf.TOP:
+                tn = grammar.ast_type_name(b.locals[i]['ty'])
+                ks = grammar.load()['kinds_of'].get(tn) if tn else None
+                if ks and len(ks) == 1:
+                    cells[i].val = Node('parent2', ks[0])
         m.frames.append(Frame(b, cells))
         outcomes, wholes = [], []
         try:
